@@ -41,10 +41,20 @@ KIND_ERRORS.update({
 ALL_ERRORS = {**KIND_ERRORS, **STRICT_ERRORS}
 
 
+def _helper_like(qual):
+    last = qual.split('.')[-1]
+    return (last.startswith('_') and not last.startswith('__')) or '<locals>' in qual
+
+
 def under(*quals):
-    """Event filter: raised while one of the functions `quals` is on the call stack (the function itself or a helper it calls)."""
+    """Event filter: raised in one of the functions `quals`, or in a private helper (chain) called from it - the shape a
+    behaviour-preserving helper extraction gives the code."""
     def f(e):
-        return any(q in e['ctx'] for q in quals)
+        c = e['ctx']
+        for i in range(len(c) - 1, -1, -1):
+            if c[i] in quals:
+                return all(_helper_like(q) for q in c[i + 1:])
+        return False
     f.wants_event = True
     return f
 
